@@ -17,7 +17,7 @@ dead <i> <client> <N> <tmo 0|1> <answered K> <fault> <when> <cut>
    -> <i> outcomes <own|Err|HANG>,.. later <Err|own|HANG> sub <eof|open|->
 tmo <i> <client> <late|early|race>                   -> <i> first <Timeout|own|racy> next own
 cancel <i> <client> <prewrite|wait>                  -> <i> cancelled next own residue 0
-stall <i> <client> <fault>                           -> <i> small Err big Err
+stall <i> <client> <fault>                           -> <i> small Err big Err later Err
 abandon <i> <client> <MiB>                           -> <i> next returned
 wtmo <i> <client> <N> <MiB>                          -> <i> small Err,.. big Err
 seq <i> <client> <T> <K>                             -> <i> ok <T*K>
@@ -220,7 +220,8 @@ def runStall (cfg : Cfg) : String :=
   let s := [Ev.alloc 0, .register 0, .write 0, .alloc 7, .register 7].foldl (step cfg) State.init
   let s := failToEnd cfg (step cfg s .readErr) (cfg.failOrder.length + 6)
   let s := [Ev.recv 0, .write 7, .cleanup 7, .recv 7].foldl (step cfg) s
-  "small " ++ showDead false (s.calls 0) ++ " big " ++ showDead false (s.calls 7)
+  let s := [Ev.alloc 1, .register 1, .write 1, .cleanup 1, .recv 1].foldl (step cfg) s
+  "small " ++ showDead false (s.calls 0) ++ " big " ++ showDead false (s.calls 7) ++ " later " ++ showDead false (s.calls 1)
 
 /-- A call is cancelled while writing (`cancel`, `cleanup`), then another call is made: it returns. -/
 def runAbandon (cfg : Cfg) : String :=
@@ -328,10 +329,13 @@ def stepLine (_ : Unit) (ws : List String) : Unit × String :=
     match cfgOf (natOf client) with
     | none => bad i
     | some _ => ((), i ++ " " ++ runBatch (natOf n) (natOf w) ((splitCommas order).map natOf) (order == "rev"))
-  | ["dead", i, client, n, _tmo, answered, _fault, _when, _cut] =>
+  | ["dead", i, client, n, _tmo, answered, fault, _when, _cut] =>
     match cfgOf (natOf client) with
     | none => bad i
-    | some cfg => ((), i ++ " " ++ runDead cfg (natOf n) (natOf answered))
+    | some cfg =>
+      -- `.s0` = no notify subscriber was registered: nothing to observe on that side
+      let o := runDead cfg (natOf n) (natOf answered)
+      ((), i ++ " " ++ (if (fault.splitOn ".").contains "s0" then o.replace "sub eof" "sub -" else o))
   | ["tmo", i, client, kind] =>
     match cfgOf (natOf client) with
     | none => bad i
